@@ -1,11 +1,48 @@
-import TucanProofs.Lemmas.Sort
-import TucanModel.Serialize
-/-! # C04 — property theorems (see DESIGN.md §5) -/
+import TucanProofs.Lemmas.Pipeline
+import TucanProofs.Lemmas.OracleNonempty
+import TucanProofs.Examples
+/-!
+# C04 — canonical atom numbering: the same molecule gives the same labelled graph
+-/
 namespace Tucan
 
-/-- The tuple list written by the serializer is a function of the *set* of bonds: any two listings of
-the same normalised bonds give the same sorted list. -/
-theorem C04_tuples_listing_independent {l₁ l₂ : List (Nat × Nat)} (h : l₁.Perm l₂) :
-    l₁.mergeSort leNN = l₂.mergeSort leNN := sortNN_perm_eq h
+/-- **C04.**  Canonicalizing two descriptions of the same molecule yields the same labelled graph: the
+atoms are numbered `0 … n-1`; atom `k` has the same element, isotope mass, radical state and partition
+class in both results (`Iso SameIdentPart id`: `attrs`), and atoms `j`, `k` are bonded in one result
+exactly when they are bonded in the other (`nbrs`).  Charges, coordinates and bond records are not
+constrained (they may sit on different but symmetry-equivalent atoms). -/
+theorem C04_canonical_graph (O : CanonOracle) (f : Nat → Nat) (g g' c c' r r' : Graph) (k k' : Nat)
+    (iso : Iso SameIdent f g g') (hchem : g.Chem)
+    (hw : g.WF) (hs : g.Simple) (hw' : g'.WF) (hs' : g'.Simple)
+    (h : canonicalizeWith g O.order = .ok (c, r, k)) (h' : canonicalizeWith g' O.order = .ok (c', r', k')) :
+    Iso SameIdentPart id c c' ∧ c.labels.Perm (List.range g.numberOfNodes) ∧
+    c'.labels.Perm (List.range g.numberOfNodes) := by
+  obtain ⟨isoC, hl, _, _, _, _⟩ := canonical_graph_invariant O iso hchem hw hs hw' hs' h h'
+  refine ⟨isoC, hl, ?_⟩
+  have := isoC.labels
+  simp only [List.map_id] at this
+  exact this.trans hl
+
+/-- spelled out: equal node → (element, mass, radical, class) maps and equal edge sets -/
+theorem C04_nodes_and_edges (O : CanonOracle) (f : Nat → Nat) (g g' c c' r r' : Graph) (k k' : Nat)
+    (iso : Iso SameIdent f g g') (hchem : g.Chem)
+    (hw : g.WF) (hs : g.Simple) (hw' : g'.WF) (hs' : g'.Simple)
+    (h : canonicalizeWith g O.order = .ok (c, r, k)) (h' : canonicalizeWith g' O.order = .ok (c', r', k')) :
+    (∀ i < g.numberOfNodes, ∃ x y, c.attrs? i = some x ∧ c'.attrs? i = some y ∧
+        x.z = y.z ∧ x.sym = y.sym ∧ x.mass = y.mass ∧ x.rad = y.rad ∧ x.part = y.part) ∧
+    (∀ i j, i < g.numberOfNodes → j < g.numberOfNodes → (c.Adj i j ↔ c'.Adj i j)) := by
+  obtain ⟨isoC, hl, _, cs, _, _⟩ := canonical_graph_invariant O iso hchem hw hs hw' hs' h h'
+  have hmem : ∀ i, i < g.numberOfNodes → i ∈ c.labels := fun i hi => hl.mem_iff.mpr (by simpa using hi)
+  refine ⟨?_, ?_⟩
+  · intro i hi
+    obtain ⟨x, y, hx, hy, hxy⟩ := isoC.attrs i (hmem i hi)
+    exact ⟨x, y, hx, hy, hxy.1.1, hxy.1.2.1, hxy.1.2.2.1, hxy.1.2.2.2.1, hxy.2⟩
+  · intro i j hi hj
+    have := isoC.adj_iff (canonical_graph_invariant O iso hchem hw hs hw' hs' h h').2.2.1 (hmem i hi) (hmem j hj)
+    simpa using this.symm
+
+theorem C04_oracle_contract_inhabited : Nonempty CanonOracle := CanonOracle.nonempty
+
+example : exGraph.WF ∧ exGraph.Simple := ⟨exGraph_wf, exGraph_simple⟩
 
 end Tucan
